@@ -42,6 +42,11 @@ type c20Case struct {
 	// wrong order and fixed with cursor-left, a junk word erased with ^W. The
 	// net text of every line is unchanged.
 	EditSeed uint64 `json:"edit_seed,omitempty"`
+	// MidEnter (with EditSeed): now and then the typist fixes the last two runes
+	// of a line's last word with cursor-left and presses Enter right there, with
+	// the cursor still inside the line - as in any shell, Enter takes the whole
+	// line and the next line continues the entry at its end.
+	MidEnter bool `json:"mid_enter,omitempty"`
 	// PTY: the statements are real INSERTs (some into a table that does not
 	// exist); the keystrokes go to a pseudo terminal and the console's real
 	// read-execute loop (runTerminal in main.go) runs on its other end, with a
@@ -162,7 +167,21 @@ func (c *c20Case) stream() (data []byte, ends []int) {
 					}
 				}
 			}
-			sb.WriteString(typed(t, &edit, true))
+			if rs := []rune(t); c.MidEnter && edit != 0 && strings.HasPrefix(c.Sep[i][j], "\r") && j+1 < len(toks) && len(rs) >= 2 && (edit>>20)%4 == 0 {
+				n := len(rs)
+				sb.WriteString(string(rs[:n-2]))
+				sb.WriteRune(rs[n-1])
+				sb.WriteString([]string{"\x1b[D", "\x02"}[int(edit>>24)%2])
+				sb.WriteRune(rs[n-2])
+				edit ^= edit << 13
+				edit ^= edit >> 7
+				edit ^= edit << 17
+				if edit == 0 {
+					edit = 1
+				}
+			} else {
+				sb.WriteString(typed(t, &edit, true))
+			}
 			sb.WriteString(c.Sep[i][j])
 		}
 		sb.WriteString(";")
@@ -187,7 +206,32 @@ func normalise(s string) string {
 	var q rune
 	space := false
 	esc := false
-	for _, r := range s {
+	rs := []rune(s)
+	comment := 0 // 1: // up to the end of the line, 2: /* */ (both are white space to the engine's scanner)
+	for i := 0; i < len(rs); i++ {
+		r := rs[i]
+		if comment == 1 {
+			if r == '\n' {
+				comment = 0
+				space = true
+			}
+			continue
+		}
+		if comment == 2 {
+			if r == '/' && rs[i-1] == '*' {
+				comment = 0
+				space = true
+			}
+			continue
+		}
+		if q == '`' {
+			// raw string: no escapes, ends at the next back quote
+			sb.WriteRune(r)
+			if r == '`' {
+				q = 0
+			}
+			continue
+		}
 		if q != 0 {
 			sb.WriteRune(r)
 			switch {
@@ -197,6 +241,14 @@ func normalise(s string) string {
 				esc = true
 			case r == q:
 				q = 0
+			}
+			continue
+		}
+		if r == '/' && i+1 < len(rs) && (rs[i+1] == '/' || rs[i+1] == '*') {
+			comment = 1
+			if rs[i+1] == '*' {
+				comment = 2
+				i++
 			}
 			continue
 		}
@@ -210,7 +262,7 @@ func normalise(s string) string {
 		}
 		space = false
 		sb.WriteRune(r)
-		if r == '\'' || r == '"' {
+		if r == '\'' || r == '"' || r == '`' {
 			q = r
 		}
 	}
@@ -244,7 +296,9 @@ func (c *c20Case) expected() []string {
 		}
 		for j, t := range toks {
 			sb.WriteString(t)
-			if c.Sep[i][j] != "" {
+			if strings.ContainsAny(c.Sep[i][j], "\r\n") {
+				sb.WriteString("\n") // ends a // comment
+			} else if c.Sep[i][j] != "" {
 				sb.WriteString(" ")
 			}
 			pos += len(t) + len(c.Sep[i][j])
@@ -589,7 +643,7 @@ func checkC20Raw(c *c20Case) *core.DriverViolation {
 			return mk("statement-extra", fmt.Sprintf("the engine was handed %q, which was not typed as a statement (%d typed)", got[i], len(want)))
 		case got[i] != want[i]:
 			kind := "statement-altered"
-			if strings.Count(want[i], ";") > 1 && strings.HasPrefix(want[i], got[i][:len(got[i])-1]) {
+			if strings.Count(want[i], ";") > 1 && len(got[i]) > 0 && strings.HasPrefix(want[i], got[i][:len(got[i])-1]) {
 				kind = "split-inside-literal"
 			}
 			return mk(kind, fmt.Sprintf("statement %d: typed %q, engine was handed %q", i, want[i], got[i]))
@@ -618,6 +672,29 @@ func genC20(seed uint64, thorough bool) *c20Case {
 	}
 	words := []string{"SELECT", "*", "FROM", "t", "WHERE", "a", "=", "INSERT", "INTO", "VALUES", "(", ")", ",", "1", "22", "x1", "<=", "AND", "OR", "UPDATE", "SET", "DELETE", "USE", "db", "CREATE", "TABLE", "k", "INT", "name"}
 	special := r.Chance(0.6)
+	// extras (a third of the cases): what the engine's scanner knows beyond
+	// words and quoted literals - raw strings, both kinds of comments -, TABs
+	// inside literals, a line feed (^J, or pasted) as a line break, Enter with
+	// the cursor inside the line
+	extras := core.NewRng(seed ^ 0xe3).Chance(0.33)
+	remark := func() string {
+		var sb strings.Builder
+		m := r.Range(0, 8)
+		for i := 0; i < m; i++ {
+			sb.WriteString([]string{"x", " ", ";", "'", "\"", "`", "don't", "é", "old; obsolete", "(", "1"}[r.Intn(11)])
+		}
+		return sb.String()
+	}
+	odd := func() (tok string, lineComment bool) {
+		switch r.Intn(3) {
+		case 0:
+			return "/*" + strings.ReplaceAll(remark(), "*/", "") + "*/", false
+		case 1:
+			return "`" + strings.ReplaceAll(remark(), "`", "") + "`", false
+		default:
+			return "// " + strings.TrimRight(strings.ReplaceAll(remark(), "\\", ""), " "), true
+		}
+	}
 	lit := func() string {
 		q := "'"
 		other := "\""
@@ -645,6 +722,10 @@ func genC20(seed uint64, thorough bool) *c20Case {
 					sb.WriteString(other)
 				}
 			case 3:
+				if extras && r.Chance(0.3) {
+					sb.WriteString("\t") // tab-separated text inside a literal
+					break
+				}
 				sb.WriteString([]string{"é", "漢", "ü", "–", "😀", "𝄞"}[r.Intn(6)])
 			case 4:
 				if special && r.Chance(0.3) {
@@ -675,6 +756,10 @@ func genC20(seed uint64, thorough bool) *c20Case {
 			// the same statement typed again
 			c.Stmts = append(c.Stmts, append([]string(nil), c.Stmts[i-1]...))
 			c.Sep = append(c.Sep, append([]string(nil), c.Sep[i-1]...))
+			if strings.HasPrefix(c.Stmts[i][0], "//") {
+				// (see odd(): no remark directly behind the ";" of the line)
+				c.After[i-1] = "\r"
+			}
 			if i == n-1 {
 				c.After = append(c.After, "\r")
 			} else {
@@ -683,12 +768,28 @@ func genC20(seed uint64, thorough bool) *c20Case {
 			continue
 		}
 		for j := 0; j < nt; j++ {
-			if r.Chance(0.3) {
+			lineComment := false
+			if extras && r.Chance(0.12) {
+				var t string
+				t, lineComment = odd()
+				if lineComment && j == 0 && i > 0 && !strings.HasSuffix(c.After[i-1], "\r") {
+					// "a; // remark" + Enter: whether that Enter submits "a;" is
+					// the console's choice (before the remark was known to it, it
+					// did not; now it does) - not a question of C20
+					t, lineComment = "/*"+t[2:]+"*/", false
+				}
+				toks = append(toks, t)
+			} else if r.Chance(0.3) {
 				toks = append(toks, lit())
 			} else {
 				toks = append(toks, words[r.Intn(len(words))])
 			}
 			switch {
+			case lineComment:
+				// the remark ends with its line
+				seps = append(seps, []string{"\r", " \r", "\r\r"}[r.Intn(3)])
+			case extras && j < nt-1 && r.Chance(0.05):
+				seps = append(seps, []string{"\n", " \n", "\n "}[r.Intn(3)]) // a line feed between two words
 			case j == nt-1 && r.Chance(0.6):
 				seps = append(seps, "") // ";" directly after the last token
 			case r.Chance(0.04):
@@ -754,6 +855,7 @@ func genC20(seed uint64, thorough bool) *c20Case {
 	}
 	if c.Mode != "paste" && r.Chance(0.2) {
 		c.EditSeed = r.U64() | 1
+		c.MidEnter = extras
 	}
 	if r.Chance(0.25) {
 		data, _ := c.stream()
@@ -852,6 +954,11 @@ func TestVerifC20(t *testing.T) {
 			return
 		}
 		res.Evals = 1
+		if os.Getenv("C20_DUMP") != "" && !c.PTY {
+			data, _ := c.stream()
+			got, _, _, _ := runC20(&c)
+			fmt.Fprintf(os.Stderr, "STREAM %q\nWANT %q\nGOT  %q\n", data, c.expected(), got)
+		}
 		if v := checkC20(&c); v != nil {
 			res.Violations = append(res.Violations, v)
 		}
